@@ -1,4 +1,557 @@
-import EudoxiaModel.Model.SObs
+import EudoxiaModel.Model.Sched.Priority
+import EudoxiaModel.Props.C12
+import EudoxiaModel.Props.C16
+import EudoxiaModel.Props.C17
+import EudoxiaModel.Props.C18
+import EudoxiaModel.Proofs.Store
+import EudoxiaModel.Props.C02
+/-! # C08 — shipped schedulers decide admissibly (per-round theorems; the run-to-the-end statement is checked on traces, see DESIGN.md)
+
+`partial`: what is proved here is, for every world and queue state, that one round of `priority` / `priority-pool` asks each pool for no more
+CPU and RAM than the pool has free (so `verify_valid_assignment` accepts the round), that every assignment was built by the checked
+`Assignment` constructor (operators PENDING/FAILED with parents satisfied, each assigned once), and that `priority` names only suspendable
+containers.  Naive and overbook: `C17.one_container_per_pool_with_all_free_resources`, `C18.assign_spec`.  Not proved: that the *composition*
+of rounds and executor ticks over a whole run never raises — that statement is false for the shipped code in one mode (known finding D11). -/
 namespace Eudoxia.C08
-theorem placeholder : True := trivial
+open Eudoxia Eudoxia.Prio OpState Extracted
+
+def NonNegS (sn : List Snap) : Prop := ∀ s ∈ sn, 0 ≤ s.availC ∧ 0 ≤ s.availR
+
+theorem getD_nonneg {sn : List Snap} (h : NonNegS sn) (p : Nat) : 0 ≤ (sn.getD p default).availC ∧ 0 ≤ (sn.getD p default).availR := by
+  rw [List.getD_eq_getElem?_getD]
+  cases hg : sn[p]? with
+  | none => simp; decide
+  | some s => simp; exact h s (List.mem_of_getElem? hg)
+
+theorem snapSub_getD (sn : List Snap) (k p cpu ram : Nat) (hk : k < sn.length) :
+    (snapSub sn k cpu ram).getD p default =
+      if p = k then { sn.getD k default with availC := (sn.getD k default).availC - cpu, availR := (sn.getD k default).availR - ram }
+      else sn.getD p default := by
+  unfold snapSub
+  rw [List.getD_eq_getElem?_getD, List.getElem?_set]
+  by_cases e : k = p
+  · subst e; simp [hk]
+  · simp [e, List.getD_eq_getElem?_getD]
+    intro h; exact absurd h.symm e
+
+theorem snapSub_nonneg (sn : List Snap) (k cpu ram : Nat) (h : NonNegS sn)
+    (hc : (cpu : Int) ≤ (sn.getD k default).availC) (hr : (ram : Int) ≤ (sn.getD k default).availR) : NonNegS (snapSub sn k cpu ram) := by
+  intro s hs
+  unfold snapSub at hs
+  rcases List.mem_or_eq_of_mem_set hs with hs | rfl
+  · exact h s hs
+  · simp only; omega
+
+theorem cpuReq_append (a b : List Asg) : cpuReq (a ++ b) = cpuReq a + cpuReq b := by simp [cpuReq]
+theorem ramReq_append (a b : List Asg) : ramReq (a ++ b) = ramReq a + ramReq b := by simp [ramReq]
+
+def on (as : List Asg) (p : Nat) : List Asg := as.filter (·.pool == p)
+
+theorem on_cons (a : Asg) (as : List Asg) (p : Nat) : on (a :: as) p = if a.pool = p then a :: on as p else on as p := by
+  unfold on; rw [List.filter_cons]; by_cases h : a.pool = p <;> simp [h]
+
+theorem on_append (a b : List Asg) (p : Nat) : on (a ++ b) p = on a p ++ on b p := by simp [on]
+
+/-- what the scheduler still shows free on pool `p` plus what it has handed out there equals what was free before -/
+def Budget (sn sn' : List Snap) (new : List Asg) : Prop :=
+  ∀ p, (sn'.getD p default).availC + cpuReq (on new p) = (sn.getD p default).availC ∧
+       (sn'.getD p default).availR + ramReq (on new p) = (sn.getD p default).availR
+
+theorem budget_refl (sn : List Snap) : Budget sn sn [] := by intro p; simp [on, cpuReq, ramReq]
+
+theorem budget_step {sn sn' : List Snap} {new : List Asg} {k cpu ram : Nat} (a : Asg) (hk : k < sn.length)
+    (ha : a.pool = k ∧ a.cpu = cpu ∧ a.ram = ram) (h : Budget (snapSub sn k cpu ram) sn' new) : Budget sn sn' (a :: new) := by
+  intro p
+  obtain ⟨h1, h2⟩ := h p
+  rw [snapSub_getD _ _ _ _ _ hk] at h1 h2
+  rw [on_cons, ha.1]
+  by_cases e : k = p
+  · subst e
+    simp only [↓reduceIte] at h1 h2 ⊢
+    simp only [cpuReq, ramReq, List.map_cons, List.sum_cons, ha.2.1, ha.2.2] at *
+    omega
+  · have e' : ¬ p = k := fun x => e x.symm
+    simp only [e, e', ↓reduceIte] at h1 h2 ⊢
+    exact ⟨h1, h2⟩
+
+/-! ### sizes fit -/
+
+theorem newSize_fits (q : Nat) (s : Snap) (h0 : 0 < s.availC) (h1 : 0 < s.availR) :
+    ((newSize q s).1 : Int) ≤ s.availC ∧ ((newSize q s).2 : Int) ≤ s.availR := by
+  simp only [newSize]
+  split
+  · refine ⟨?_, ?_⟩ <;> simp only <;> omega
+  · rename_i h
+    simp only [Bool.or_eq_true, decide_eq_true_eq, not_or, Int.not_le] at h
+    exact ⟨Int.le_of_lt h.1, Int.le_of_lt h.2⟩
+
+theorem fits_of_eq {q : Nat} {s : Snap} {jc jr : Nat} (h : some (newSize q s) = some (jc, jr))
+    (hn : ((newSize q s).1 : Int) ≤ s.availC ∧ ((newSize q s).2 : Int) ≤ s.availR) :
+    (jc : Int) ≤ s.availC ∧ (jr : Int) ≤ s.availR := by
+  have e := Option.some.inj h
+  have e1 : jc = (newSize q s).1 := by rw [e]
+  have e2 : jr = (newSize q s).2 := by rw [e]
+  subst e1 e2
+  exact hn
+
+theorem prSize_fits (q : Nat) (s : Snap) (job : Job) (jc jr : Nat) (h0 : 0 < s.availC) (h1 : 0 < s.availR)
+    (h : prSize q s job = some (jc, jr)) : (jc : Int) ≤ s.availC ∧ (jr : Int) ≤ s.availR := by
+  unfold prSize at h
+  have hn := newSize_fits q s h0 h1
+  split at h
+  · split at h
+    · split at h
+      · cases h
+      · rename_i hfit
+        split at h
+        · cases h
+        · cases h
+          simp only [Bool.or_eq_true, decide_eq_true_eq, not_or, Int.not_lt] at hfit
+          exact hfit
+    · split at h
+      · rename_i hfit
+        cases h
+        simp only [Bool.and_eq_true, decide_eq_true_eq] at hfit
+        omega
+      · exact fits_of_eq h hn
+  · exact fits_of_eq h hn
+
+theorem ppSize_fits (q : Nat) (s : Snap) (job : Job) (jc jr : Nat) (h0 : 0 < s.availC) (h1 : 0 < s.availR)
+    (h : ppSize q s job = some (jc, jr)) : (jc : Int) ≤ s.availC ∧ (jr : Int) ≤ s.availR := by
+  unfold ppSize at h
+  have hn := newSize_fits q s h0 h1
+  split at h
+  · split at h
+    · split at h
+      · cases h
+      · split at h
+        · cases h; exact ⟨by omega, by omega⟩
+        · rename_i hfit
+          cases h
+          simp only [Bool.or_eq_true, decide_eq_true_eq, not_or, Int.not_le] at hfit
+          omega
+    · split at h
+      · rename_i hfit
+        simp only [Bool.and_eq_true, decide_eq_true_eq] at hfit
+        split at h
+        · cases h; exact ⟨by omega, by omega⟩
+        · cases h; exact hfit
+      · exact fits_of_eq h hn
+  · exact fits_of_eq h hn
+
+/-! ### one queue never asks a pool for more than it has -/
+
+theorem prQueue_budget (q : Nat) : ∀ (jobs : List Job) (w : World) (sn : List Snap) (k : Nat) (acc : List Asg)
+    (w' : World) (sn' : List Snap) (k' : Nat) (out : List Asg),
+    prQueue q w jobs sn k acc = .ok (w', sn', k', out) → NonNegS sn →
+    NonNegS sn' ∧ sn'.length = sn.length ∧ ∃ new, out = acc ++ new ∧ Budget sn sn' new := by
+  intro jobs
+  induction jobs with
+  | nil =>
+    intro w sn k acc w' sn' k' out h hn
+    simp [prQueue] at h
+    obtain ⟨_, rfl, _, rfl⟩ := h
+    exact ⟨hn, rfl, [], by simp, budget_refl _⟩
+  | cons job rest ih =>
+    intro w sn k acc w' sn' k' out h hn
+    unfold prQueue at h
+    split at h
+    · simp at h
+      obtain ⟨_, rfl, _, rfl⟩ := h
+      exact ⟨hn, rfl, [], by simp, budget_refl _⟩
+    · rename_i pool hb
+      obtain ⟨hp, hopen, _⟩ := C12.bestPool_spec sn pool hb
+      split at h
+      · exact ih _ _ _ _ _ _ _ _ h hn
+      · rename_i jc jr hsz
+        split at h
+        · cases h
+        · rename_i w1 a1 hmk
+          obtain ⟨ea, _⟩ := mkA_ok hmk
+          obtain ⟨fc, fr⟩ := prSize_fits q _ job jc jr hopen.1 hopen.2 hsz
+          obtain ⟨n1, n2, new, e, b⟩ := ih _ _ _ _ _ _ _ _ h (snapSub_nonneg sn pool jc jr hn fc fr)
+          refine ⟨n1, by rw [n2]; simp [snapSub], a1 :: new, by simp [e], budget_step a1 hp (by rw [ea]; exact ⟨rfl, rfl, rfl⟩) b⟩
+
+theorem ppQueue_budget (q pool : Nat) : ∀ (jobs : List Job) (w : World) (sn : List Snap) (k : Nat) (acc : List Asg)
+    (w' : World) (sn' : List Snap) (k' : Nat) (out : List Asg),
+    ppQueue q pool w jobs sn k acc = .ok (w', sn', k', out) → NonNegS sn →
+    NonNegS sn' ∧ sn'.length = sn.length ∧ ∃ new, out = acc ++ new ∧ Budget sn sn' new := by
+  intro jobs
+  induction jobs with
+  | nil =>
+    intro w sn k acc w' sn' k' out h hn
+    simp [ppQueue] at h
+    obtain ⟨_, rfl, _, rfl⟩ := h
+    exact ⟨hn, rfl, [], by simp, budget_refl _⟩
+  | cons job rest ih =>
+    intro w sn k acc w' sn' k' out h hn
+    unfold ppQueue at h
+    split at h
+    · split at h
+      · simp at h
+        obtain ⟨_, rfl, _, rfl⟩ := h
+        exact ⟨hn, rfl, [], by simp, budget_refl _⟩
+      · cases h
+    · rename_i hz
+      simp only [Bool.or_eq_true, beq_iff_eq, not_or] at hz
+      have hnn := getD_nonneg hn pool
+      have hp : pool < sn.length := by
+        apply Decidable.byContradiction
+        intro hge
+        have : sn.getD pool default = default := by
+          rw [List.getD_eq_getElem?_getD, List.getElem?_eq_none (by omega)]; rfl
+        rw [this] at hz
+        exact hz.1 rfl
+      split at h
+      · exact ih _ _ _ _ _ _ _ _ h hn
+      · rename_i jc jr hsz
+        split at h
+        · cases h
+        · rename_i w1 a1 hmk
+          obtain ⟨ea, _⟩ := mkA_ok hmk
+          obtain ⟨fc, fr⟩ := ppSize_fits q _ job jc jr (by omega) (by omega) hsz
+          obtain ⟨n1, n2, new, e, b⟩ := ih _ _ _ _ _ _ _ _ h (snapSub_nonneg sn pool jc jr hn fc fr)
+          refine ⟨n1, by rw [n2]; simp [snapSub], a1 :: new, by simp [e], budget_step a1 hp (by rw [ea]; exact ⟨rfl, rfl, rfl⟩) b⟩
+
+theorem budget_trans {a b c : List Snap} {x y : List Asg} (h1 : Budget a b x) (h2 : Budget b c y) : Budget a c (x ++ y) := by
+  intro p
+  obtain ⟨p1, p2⟩ := h1 p
+  obtain ⟨q1, q2⟩ := h2 p
+  rw [on_append, cpuReq_append, ramReq_append]
+  omega
+
+theorem snaps_getD (w : World) (p : Nat) (hp : p < w.pools.length) :
+    ((snaps w).getD p default).availC = (w.pools.getD p default).availC ∧ ((snaps w).getD p default).availR = (w.pools.getD p default).availR := by
+  unfold snaps
+  rw [List.getD_eq_getElem?_getD, List.getD_eq_getElem?_getD, List.getElem?_map]
+  rw [List.getElem?_eq_getElem hp]
+  simp
+
+/-- what three chained queue runs hand out stays within what each pool had free, so the executor's `verify_valid_assignment` accepts it -/
+theorem accepted_of_budget (w : World) (snEnd : List Snap) (asgs : List Asg) (hb : Budget (snaps w) snEnd asgs) (hn : NonNegS snEnd)
+    (p : Nat) (hp : p < w.pools.length) : verifyAssignments w.cfg (w.pools.getD p default) (on asgs p) = .ok () := by
+  obtain ⟨b1, b2⟩ := hb p
+  obtain ⟨s1, s2⟩ := snaps_getD w p hp
+  obtain ⟨n1, n2⟩ := getD_nonneg hn p
+  unfold verifyAssignments
+  rw [if_neg (by omega)]
+  split
+  · rename_i h
+    simp only [Bool.and_eq_true, Bool.not_eq_true', decide_eq_true_eq] at h
+    omega
+  · rfl
+
+/-- **priority never oversells**: whatever the queues hold, the assignments of one round pass the executor's capacity check on every pool,
+provided no pool's free CPU/RAM is negative when the round starts (true in every reachable world: `reach_good`). -/
+theorem priority_round_not_oversold (w w' : World) (st st' : St) (res : List Res) (newP : List Nat) (dec : Decision)
+    (h : prRound w st res newP = .ok (w', st', dec)) (hnn : ∀ p ∈ w.pools, 0 ≤ p.availC ∧ 0 ≤ p.availR)
+    (p : Nat) (hp : p < w.pools.length) : verifyAssignments w.cfg (w.pools.getD p default) (dec.asgs.filter (·.pool == p)) = .ok () := by
+  have h0 : NonNegS (snaps w) := by
+    intro s hs
+    simp only [snaps, List.mem_map] at hs
+    obtain ⟨pl, hpl, rfl⟩ := hs
+    exact hnn pl hpl
+  unfold prRound at h
+  simp only at h
+  split at h
+  · cases h
+  · rename_i hq1
+    split at h
+    · cases h
+    · rename_i hq2
+      split at h
+      · cases h
+      · rename_i hq3
+        simp only [Except.ok.injEq, Prod.mk.injEq] at h
+        obtain ⟨_, _, hdec⟩ := h
+        obtain ⟨n1, _, x1, e1, b1⟩ := prQueue_budget _ _ _ _ _ _ _ _ _ _ hq1 h0
+        obtain ⟨n2, _, x2, e2, b2⟩ := prQueue_budget _ _ _ _ _ _ _ _ _ _ hq2 n1
+        obtain ⟨n3, _, x3, e3, b3⟩ := prQueue_budget _ _ _ _ _ _ _ _ _ _ hq3 n2
+        simp only [List.nil_append] at e1 e2 e3
+        subst e1 e2 e3
+        rw [← hdec]
+        exact accepted_of_budget w _ _ (budget_trans (budget_trans b1 b2) b3) n3 p hp
+
+/-- **priority-pool never oversells** -/
+theorem priority_pool_round_not_oversold (w w' : World) (st st' : St) (res : List Res) (newP : List Nat) (dec : Decision)
+    (h : ppRound w st res newP = .ok (w', st', dec)) (hnn : ∀ p ∈ w.pools, 0 ≤ p.availC ∧ 0 ≤ p.availR)
+    (p : Nat) (hp : p < w.pools.length) : verifyAssignments w.cfg (w.pools.getD p default) (dec.asgs.filter (·.pool == p)) = .ok () := by
+  have h0 : NonNegS (snaps w) := by
+    intro s hs
+    simp only [snaps, List.mem_map] at hs
+    obtain ⟨pl, hpl, rfl⟩ := hs
+    exact hnn pl hpl
+  unfold ppRound at h
+  split at h
+  · cases h
+  · simp only at h
+    split at h
+    · cases h
+    · rename_i hq1
+      split at h
+      · cases h
+      · rename_i hq2
+        split at h
+        · cases h
+        · rename_i hq3
+          simp only [Except.ok.injEq, Prod.mk.injEq] at h
+          obtain ⟨_, _, hdec⟩ := h
+          obtain ⟨n1, _, x1, e1, b1⟩ := ppQueue_budget _ _ _ _ _ _ _ _ _ _ _ hq1 h0
+          obtain ⟨n2, _, x2, e2, b2⟩ := ppQueue_budget _ _ _ _ _ _ _ _ _ _ _ hq2 n1
+          obtain ⟨n3, _, x3, e3, b3⟩ := ppQueue_budget _ _ _ _ _ _ _ _ _ _ _ hq3 n2
+          simp only [List.nil_append] at e1 e2 e3
+          subst e1 e2 e3
+          rw [← hdec]
+          exact accepted_of_budget w _ _ (budget_trans (budget_trans b1 b2) b3) n3 p hp
+
+
+/-! ### every assignment is built by the checked constructor, and no operator is assigned twice -/
+
+/-- a chain of accepted `Assignment(...)` constructions -/
+inductive Built : World → List Asg → World → Prop
+  | nil (w : World) : Built w [] w
+  | cons {w w1 w2 : World} {a : Asg} {as : List Asg} : w.mkAssignment a = .ok w1 → Built w1 as w2 → Built w (a :: as) w2
+
+theorem Built.append {w w1 w2 : World} {x y : List Asg} (h1 : Built w x w1) (h2 : Built w1 y w2) : Built w (x ++ y) w2 := by
+  induction h1 with
+  | nil => exact h2
+  | cons hm _ ih => exact .cons hm (ih h2)
+
+theorem assignOps_spec : ∀ (l : List Nat) (s s' : Store), assignOps s l = .ok s' →
+    l.Nodup ∧ (∀ o ∈ l, s.stOf o ∈ assignable ∧ s'.stOf o = assigned) ∧ ∀ o, o ∉ l → s'.stOf o = s.stOf o := by
+  intro l
+  induction l with
+  | nil => intro s s' h; simp [assignOps] at h; subst h; simp
+  | cons r rs ih =>
+    intro s s' h
+    unfold assignOps at h
+    split at h
+    · cases h
+    · rename_i s1 ht
+      obtain ⟨hv, _, hself, hother⟩ := C02.accepted_is_valid ht
+      obtain ⟨nd, hin, hout⟩ := ih s1 s' h
+      have hr : s.stOf r ∈ assignable := by
+        revert hv; cases s.stOf r <;> simp [validNext, assignable]
+      have hnot : r ∉ rs := by
+        intro hm
+        have := (hin r hm).1
+        rw [hself] at this
+        simp [assignable] at this
+      refine ⟨List.nodup_cons.mpr ⟨hnot, nd⟩, ?_, ?_⟩
+      · intro o ho
+        rcases List.mem_cons.mp ho with rfl | ho
+        · exact ⟨hr, by rw [hout _ hnot, hself]⟩
+        · have hne : o ≠ r := fun e => hnot (e ▸ ho)
+          exact ⟨by rw [← hother o hne]; exact (hin o ho).1, (hin o ho).2⟩
+      · intro o ho
+        simp only [List.mem_cons, not_or] at ho
+        rw [hout o ho.2, hother o ho.1]
+
+theorem mkAssignment_spec {w w' : World} {a : Asg} (h : w.mkAssignment a = .ok w') :
+    a.ops ≠ [] ∧ 0 < a.cpu ∧ 0 < a.ram ∧ a.ops.Nodup ∧ (∀ o ∈ a.ops, w.store.stOf o ∈ assignable ∧ w'.store.stOf o = assigned) ∧
+    (∀ o, o ∉ a.ops → w'.store.stOf o = w.store.stOf o) := by
+  unfold World.mkAssignment at h
+  split at h
+  · cases h
+  · rename_i h1
+    split at h
+    · cases h
+    · rename_i h2
+      split at h
+      · cases h
+      · rename_i h3
+        split at h
+        · cases h
+        · rename_i s hs
+          cases h
+          obtain ⟨a1, a2, a3⟩ := assignOps_spec _ _ _ hs
+          exact ⟨by simpa using h1, by simp at h2; omega, by simp at h3; omega, a1, a2, a3⟩
+
+/-- **admissible by construction.**  Along a chain of accepted constructions no operator occurs twice (neither inside one assignment nor in two),
+every operator was PENDING or FAILED when the chain started and is ASSIGNED when it ends, and every container asks for positive CPU and RAM. -/
+theorem built_spec {w w' : World} {as : List Asg} (h : Built w as w') :
+    (as.flatMap (·.ops)).Nodup ∧ (∀ a ∈ as, a.ops ≠ [] ∧ 0 < a.cpu ∧ 0 < a.ram) ∧
+    (∀ o ∈ as.flatMap (·.ops), w.store.stOf o ∈ assignable ∧ w'.store.stOf o = assigned) ∧
+    (∀ o, o ∉ as.flatMap (·.ops) → w'.store.stOf o = w.store.stOf o) := by
+  induction h with
+  | nil => simp
+  | cons hm _ ih =>
+    rename_i w w1 w2 a as _
+    obtain ⟨m1, m2, m3, m4, m5, m6⟩ := mkAssignment_spec hm
+    obtain ⟨i1, i2, i3, i4⟩ := ih
+    have disj : ∀ o, o ∈ a.ops → o ∉ as.flatMap (·.ops) := by
+      intro o ho hin
+      have h1 := (m5 o ho).2
+      have h2 := (i3 o hin).1
+      rw [h1] at h2
+      simp [assignable] at h2
+    refine ⟨?_, ?_, ?_, ?_⟩
+    · rw [List.flatMap_cons]
+      exact List.nodup_append.mpr ⟨m4, i1, fun x hx y hy e => disj x hx (e ▸ hy)⟩
+    · intro b hb
+      rcases List.mem_cons.mp hb with rfl | hb
+      · exact ⟨m1, m2, m3⟩
+      · exact i2 b hb
+    · intro o ho
+      rw [List.flatMap_cons] at ho
+      rcases List.mem_append.mp ho with ho | ho
+      · exact ⟨(m5 o ho).1, by rw [i4 o (disj o ho)]; exact (m5 o ho).2⟩
+      · have hna : o ∉ a.ops := fun hx => disj o hx ho
+        exact ⟨by rw [← m6 o hna]; exact (i3 o ho).1, (i3 o ho).2⟩
+    · intro o ho
+      rw [List.flatMap_cons, List.mem_append, not_or] at ho
+      rw [i4 o ho.2, m6 o ho.1]
+
+theorem prQueue_built (q : Nat) : ∀ (jobs : List Job) (w : World) (sn : List Snap) (k : Nat) (acc : List Asg)
+    (w' : World) (sn' : List Snap) (k' : Nat) (out : List Asg),
+    prQueue q w jobs sn k acc = .ok (w', sn', k', out) → ∃ new, out = acc ++ new ∧ Built w new w' := by
+  intro jobs
+  induction jobs with
+  | nil =>
+    intro w sn k acc w' sn' k' out h
+    simp [prQueue] at h
+    obtain ⟨rfl, _, _, rfl⟩ := h
+    exact ⟨[], by simp, .nil _⟩
+  | cons job rest ih =>
+    intro w sn k acc w' sn' k' out h
+    unfold prQueue at h
+    split at h
+    · simp at h
+      obtain ⟨rfl, _, _, rfl⟩ := h
+      exact ⟨[], by simp, .nil _⟩
+    · split at h
+      · exact ih _ _ _ _ _ _ _ _ h
+      · split at h
+        · cases h
+        · rename_i w1 a1 hmk
+          obtain ⟨_, hm⟩ := mkA_ok hmk
+          obtain ⟨new, e, b⟩ := ih _ _ _ _ _ _ _ _ h
+          exact ⟨a1 :: new, by simp [e], .cons hm b⟩
+
+theorem ppQueue_built (q pool : Nat) : ∀ (jobs : List Job) (w : World) (sn : List Snap) (k : Nat) (acc : List Asg)
+    (w' : World) (sn' : List Snap) (k' : Nat) (out : List Asg),
+    ppQueue q pool w jobs sn k acc = .ok (w', sn', k', out) → ∃ new, out = acc ++ new ∧ Built w new w' := by
+  intro jobs
+  induction jobs with
+  | nil =>
+    intro w sn k acc w' sn' k' out h
+    simp [ppQueue] at h
+    obtain ⟨rfl, _, _, rfl⟩ := h
+    exact ⟨[], by simp, .nil _⟩
+  | cons job rest ih =>
+    intro w sn k acc w' sn' k' out h
+    unfold ppQueue at h
+    split at h
+    · split at h
+      · simp at h
+        obtain ⟨rfl, _, _, rfl⟩ := h
+        exact ⟨[], by simp, .nil _⟩
+      · cases h
+    · split at h
+      · exact ih _ _ _ _ _ _ _ _ h
+      · split at h
+        · cases h
+        · rename_i w1 a1 hmk
+          obtain ⟨_, hm⟩ := mkA_ok hmk
+          obtain ⟨new, e, b⟩ := ih _ _ _ _ _ _ _ _ h
+          exact ⟨a1 :: new, by simp [e], .cons hm b⟩
+
+/-- **priority: a round's assignments are a chain of accepted constructions from the world the round started in** (hence `built_spec`) -/
+theorem priority_round_built (w w' : World) (st st' : St) (res : List Res) (newP : List Nat) (dec : Decision)
+    (h : prRound w st res newP = .ok (w', st', dec)) : Built w dec.asgs w' := by
+  unfold prRound at h
+  simp only at h
+  split at h
+  · cases h
+  · rename_i hq1
+    split at h
+    · cases h
+    · rename_i hq2
+      split at h
+      · cases h
+      · rename_i hq3
+        simp only [Except.ok.injEq, Prod.mk.injEq] at h
+        obtain ⟨rfl, _, hdec⟩ := h
+        obtain ⟨x1, e1, b1⟩ := prQueue_built _ _ _ _ _ _ _ _ _ _ hq1
+        obtain ⟨x2, e2, b2⟩ := prQueue_built _ _ _ _ _ _ _ _ _ _ hq2
+        obtain ⟨x3, e3, b3⟩ := prQueue_built _ _ _ _ _ _ _ _ _ _ hq3
+        simp only [List.nil_append] at e1 e2 e3
+        subst e1 e2 e3
+        rw [← hdec]
+        exact (b1.append b2).append b3
+
+theorem priority_pool_round_built (w w' : World) (st st' : St) (res : List Res) (newP : List Nat) (dec : Decision)
+    (h : ppRound w st res newP = .ok (w', st', dec)) : Built w dec.asgs w' := by
+  unfold ppRound at h
+  split at h
+  · cases h
+  · simp only at h
+    split at h
+    · cases h
+    · rename_i hq1
+      split at h
+      · cases h
+      · rename_i hq2
+        split at h
+        · cases h
+        · rename_i hq3
+          simp only [Except.ok.injEq, Prod.mk.injEq] at h
+          obtain ⟨rfl, _, hdec⟩ := h
+          obtain ⟨x1, e1, b1⟩ := ppQueue_built _ _ _ _ _ _ _ _ _ _ _ hq1
+          obtain ⟨x2, e2, b2⟩ := ppQueue_built _ _ _ _ _ _ _ _ _ _ _ hq2
+          obtain ⟨x3, e3, b3⟩ := ppQueue_built _ _ _ _ _ _ _ _ _ _ _ hq3
+          simp only [List.nil_append] at e1 e2 e3
+          subst e1 e2 e3
+          rw [← hdec]
+          exact (b1.append b2).append b3
+
+/-! ### only suspendable containers are suspended -/
+
+theorem findCtr_of_mem_nodup : ∀ (l : List Ctr) (c : Ctr), c ∈ l → (l.map (·.cid)).Nodup → findCtr l c.cid = some c := by
+  intro l
+  induction l with
+  | nil => intro c h; simp at h
+  | cons x xs ih =>
+    intro c hc hnd
+    simp only [List.map_cons, List.nodup_cons] at hnd
+    unfold findCtr
+    rw [List.find?_cons]
+    rcases List.mem_cons.mp hc with rfl | hc
+    · simp
+    · have : (x.cid == c.cid) = false := by
+        simp only [beq_eq_false_iff_ne, ne_eq]
+        intro e
+        exact hnd.1 (e ▸ List.mem_map.mpr ⟨c, hc, rfl⟩)
+      rw [this]
+      exact ih c hc hnd.2
+
+/-- the executor's `verify_valid_suspend` accepts a list of requests each of which names a suspendable active container (container numbers being
+distinct within the pool — part of the pool invariant `PoolInv`, proved for every reachable world) -/
+theorem verifySuspends_ok (p : Pool) (hnd : (p.active.map (·.cid)).Nodup) : ∀ (l : List Nat),
+    (∀ cid ∈ l, ∃ c ∈ p.active, c.cid = cid ∧ c.canSuspend = true) → verifySuspends p l = .ok () := by
+  intro l
+  induction l with
+  | nil => intro _; rfl
+  | cons x xs ih =>
+    intro h
+    obtain ⟨c, hc, e, hs⟩ := h x (by simp)
+    unfold verifySuspends
+    rw [← e, findCtr_of_mem_nodup _ c hc hnd]
+    simp only [hs, ↓reduceIte]
+    exact ih (fun cid hcid => h cid (List.mem_cons_of_mem _ hcid))
+
+/-- **priority suspends only what the executor accepts** -/
+theorem priority_round_suspensions_accepted (w w' : World) (st st' : St) (res : List Res) (newP : List Nat) (dec : Decision)
+    (h : prRound w st res newP = .ok (w', st', dec)) (p : Nat)
+    (hnd : ((w.pools.getD p default).active.map (·.cid)).Nodup) :
+    verifySuspends (w.pools.getD p default) ((dec.sus.filter (·.1 == p)).map (·.2)) = .ok () := by
+  apply verifySuspends_ok _ hnd
+  intro cid hcid
+  obtain ⟨x, hx, rfl⟩ := List.mem_map.mp hcid
+  obtain ⟨hx1, hx2⟩ := List.mem_filter.mp hx
+  have hp : x.1 = p := by simpa using hx2
+  obtain ⟨c, hc, e1, _, e3⟩ := (C12.round_preemption w w' st st' res newP dec h).2.2 x hx1
+  rw [hp] at hc
+  exact ⟨c, hc, e1, e3⟩
+
 end Eudoxia.C08
